@@ -4,38 +4,51 @@ From Coq Require Import List NArith ZArith Bool PeanoNat.
 From GP Require Import Base.Val Model.Reattach Proofs.ReattachP.
 Import ListNotations.
 
-Theorem C15_reattach_same_instance : forall w c x,
-  nth_error (cls w) c = Some x -> inst_alive w (c_inst x) = true ->
-  let '(w', r) := rstep w (RReattach c) in
+Theorem C15_reattach_same_instance : forall net w c x h,
+  nth_error (cls w) c = Some x -> c_conn x = true -> inst_alive w (c_inst x) = true ->
+  let '(w', r) := rstep net w (RReattach c) h in
   r = 1%Z /\ insts w' = insts w /\
-  nth_error (cls w') (length (cls w)) = Some {| c_inst := c_inst x; c_test := c_test x; c_live := true |}.
+  nth_error (cls w') (length (cls w)) = Some {| c_inst := c_inst x; c_test := c_test x; c_live := true; c_conn := true |}.
 Proof. exact reattach_same_instance. Qed.
 
-Theorem C15_reattach_dead_not_found : forall w c x,
-  nth_error (cls w) c = Some x -> inst_alive w (c_inst x) = false ->
-  let '(w', r) := rstep w (RReattach c) in r = 0%Z /\ insts w' = insts w.
+Theorem C15_reattach_dead_not_found : forall net w c x h,
+  nth_error (cls w) c = Some x -> c_conn x = true -> inst_alive w (c_inst x) = false ->
+  let '(w', r) := rstep net w (RReattach c) h in r = 0%Z /\ insts w' = insts w.
 Proof. exact reattach_dead_not_found. Qed.
 
+Theorem C15_reattach_never_launches : forall net w c h, insts (fst (rstep net w (RReattach c) h)) = insts w.
+Proof. exact reattach_never_touches_instances. Qed.
+
 (* state set through one client is visible through every other live client of the same instance *)
-Theorem C15_same_state : forall w c1 c2 x1 x2 y v,
+Theorem C15_same_state : forall net w c1 c2 x1 x2 y v h1 h2,
   nth_error (cls w) c1 = Some x1 -> nth_error (cls w) c2 = Some x2 -> c_inst x1 = c_inst x2 ->
-  c_live x1 = true -> c_live x2 = true -> nth_error (insts w) (c_inst x1) = Some y -> i_alive y = true ->
-  snd (rstep (fst (rstep w (RSet c1 v))) (RGet c2)) = v.
+  c_live x1 = true -> c_live x2 = true -> nth_error (insts w) (c_inst x1) = Some y -> i_conn y = CUp ->
+  snd (rstep net (fst (rstep net w (RSet c1 v) h1)) (RGet c2) h2) = v.
 Proof. exact set_then_get. Qed.
 Print Assumptions C15_same_state.
 
-Theorem C15_test_mode_kill_keeps_server : forall w c x,
-  nth_error (cls w) c = Some x -> c_test x = true -> fst (rstep w (RKill c)) = w.
+Theorem C15_test_mode_kill_keeps_server : forall net w c x h,
+  nth_error (cls w) c = Some x -> c_test x = true -> fst (rstep net w (RKill c) h) = w.
 Proof. exact test_mode_kill_keeps_server. Qed.
 
-Theorem C15_kill_ends_instance : forall w c x,
+Theorem C15_kill_ends_instance : forall net w c x h,
   nth_error (cls w) c = Some x -> c_test x = false -> c_live x = true -> c_inst x < length (insts w) ->
-  inst_alive (fst (rstep w (RKill c))) (c_inst x) = false.
+  inst_alive (fst (rstep net w (RKill c) h)) (c_inst x) = false /\ inst_conn (fst (rstep net w (RKill c) h)) (c_inst x) = CDown.
 Proof. exact kill_ends_instance. Qed.
 
 (* a whole history: start, set, reattach twice, read through the second generation, kill it, reattach again *)
 Example C15_nonvacuous :
-  snd (rrun w0 [RStart false; RSet 0 7; RReattach 0; RReattach 1; RGet 2; RKill 2; RAlive 0; RReattach 0; RGet 1;
-                RStart true; RReattach 4; RSet 5 9; RKill 5; RAlive 1; RGet 4; RCancel 1; RAlive 1; RReattach 4])
+  snd (rrun false w0 [RStart false; RSet 0 7; RReattach 0; RReattach 1; RGet 2; RKill 2; RAlive 0; RReattach 0; RGet 1;
+                RStart true; RReattach 4; RSet 5 9; RKill 5; RAlive 1; RGet 4; RCancel 1; RAlive 1; RReattach 4] [])
   = [1; 1; 1; 1; 7; 0; 0; 0; -1; 1; 1; 1; 0; 1; 9; 0; 0; 0]%Z.
 Proof. vm_compute. reflexivity. Qed.
+
+(* net/rpc, test mode: cancelling the server's context stops new reattaches; whether calls on the connections that
+   exist still work is left open (the observed outcomes, given as hints, resolve it); a client whose own reattach failed
+   has no reattach config to hand on *)
+Example C15_nonvacuous_netrpc :
+  snd (rrun true w0 [RStart true; RReattach 0; RCancel 0; RAlive 0; RSet 1 5; RGet 0; RReattach 0; RReattach 2; RGet 2] [1; 1; 0; 0; 1; 5; 0; -2; -1]%Z)
+  = [1; 1; 0; 0; 1; 5; 0; -2; -1]%Z /\
+  snd (rrun true w0 [RStart true; RCancel 0; RSet 0 5; RGet 0] [1; 0; 0; -1]%Z) = [1; 0; 0; -1]%Z /\
+  snd (rrun false w0 [RStart true; RCancel 0; RSet 0 5; RGet 0] [1; 0; 1; 5]%Z) = [1; 0; 0; -1]%Z.
+Proof. vm_compute. repeat split; reflexivity. Qed.
